@@ -285,13 +285,20 @@ def handleROps (st : DurState) : List String → Option (DurState × String)
     let c ← cmpById st.cmpId
     let rcfg := codeRCfg st.strictRec
     let r0 := toRDisk st
-    let r1 := r0.applyAll ((recoverOps rcfg r0).take k)
+    let allOps := recoverOps rcfg r0
+    let r1 := r0.applyAll (allOps.take k)
     let ch ← if how = "kept" then some (rkeepAll r1) else if how = "lost" then some ({} : RCrash) else none
     let r2 := rcrash ch r1
+    -- tables already replaced by their rebuilt (shorter) copies: a manifest written BEFORE Recover still records the
+    -- old file size, and the table reader looks for the footer at that size
+    let rebuilt := (allOps.take k).filterMap fun | .renameTemp _ n => some n | _ => none
+    let newMan := allOps.findSome? fun | .base (.create .manifest n) => some n | _ => none
+    let viaOld := r2.disk.current != newMan
     let o := match recoverR st.cfg r2.disk with
       | .ok rs =>
-        -- a scan of the opened DB fails on a live table that still has a corrupted block
-        if rs.mv.live.any (r2.dmg.contains ·) then "ok:scan-error"
+        -- a scan of the opened DB fails on a live table that still has a corrupted block, or whose size the manifest
+        -- in use no longer describes
+        if rs.mv.live.any (fun n => r2.dmg.contains n || (viaOld && rebuilt.contains n)) then "ok:scan-error"
         else let ps := rs.contents c; s!"ok:{ps.length}:{contentsDigest ps}"
       | .error _ => "err"
     let rb := rebuild (scanIn rcfg r2)
